@@ -6,7 +6,10 @@
    real protocol selection -> real ServerStreamConnection.Dispatch, plus natively every single cut, byte-by-byte
    delivery and seeded random chunkings of a longer stream. TLC validates every recorded chunk against the spec's
    invariants (B2).  spec/wire/Detect.tla (+Trace): prefix-monotone matchers and the selection rule, validated on
-   every prefix of valid streams with the real matchers and the real SelectStreamFactoryProtocol."""
+   every prefix of valid streams with the real matchers and the real SelectStreamFactoryProtocol.
+   End to end: the same zone chunkings written by a raw TCP client into an in-process MOSN (Auto listener, real
+   proxy.OnData); the next chunk is written only after the net.read hook reported the previous one; the requests
+   the HTTP/1 upstream receives are validated by the same trace spec."""
 import concurrent.futures as cf
 import json, os, random, re
 import vlib
@@ -68,7 +71,7 @@ def run(ctx):
     lines = sorted(set(open(raw).read().splitlines()))
     small = [ln for ln in lines if len(json.loads(ln)["frames"]) <= 2]
     big = [ln for ln in lines if len(json.loads(ln)["frames"]) > 2]
-    cap = 4000
+    cap = 12000
     sampled = len(big) > cap
     if sampled:
         big = rng.sample(big, cap)
@@ -80,13 +83,15 @@ def run(ctx):
 
     # ---------- 2. real code: record (one driver process per protocol, in parallel)
     binary = vlib.go_build("c07")
-    nrand = "12" if q else "60"
+    nrand = "12" if q else "120"
     jobs = []
     with cf.ThreadPoolExecutor(max_workers=8) as ex:
         for p in PROTOS:
             jobs.append(("framing", ex.submit(drive, ctx, binary, "zones", p, ["-cases", zones], "z")))
             jobs.append(("framing", ex.submit(drive, ctx, binary, "native", p, ["-random", nrand], "n")))
         jobs.append(("detect", ex.submit(drive, ctx, binary, "detect", ",".join(PROTOS), [], "d")))
+        # end to end: in-process MOSN (Auto listener, real proxy filter, real sockets), HTTP/1 upstream sees the requests
+        jobs.append(("framing", ex.submit(drive, ctx, binary, "e2e", "Http1", ["-cases", zones, "-random", nrand], "e")))
         parts = {"framing": [], "detect": []}
         for kind, j in jobs:
             parts[kind] += j.result()
@@ -146,7 +151,8 @@ def run(ctx):
                        "enumerates for <=2 frames (%d cases%s), every single cut and byte-by-byte delivery of a 4-message stream "
                        "(7 in thorough), %s seeded random chunkings; alternately with fixed protocol and with automatic detection; "
                        "an evaluation = one chunk (feed) or one matcher/selection answer judged by TLC; detection: every prefix up "
-                       "to 64 bytes, first-frame end -1/0 and full stream, 3 valid streams per variant" % (
+                       "to 64 bytes, first-frame end -1/0 and full stream, 3 valid streams per variant; e2e: the zone chunkings and random "
+                       "chunkings over TCP into an in-process MOSN, upstream arrivals judged" % (
                            ncases, ", 3-frame cases sub-sampled by VERIF_SEED" if sampled else "", nrand))
     ctx.assumptions += ["streams are concatenations of valid request frames on which exactly one registered matcher finally succeeds",
                         "HTTP/2 messages are sent sequentially (no interleaving of streams); tars packets < 256 bytes",
